@@ -16,7 +16,7 @@ var ErrInjected = errors.New("injected storage failure")
 type CrashSentinel struct{ After bool }
 
 type FaultPlan struct {
-	Kind string // "" (count only) | write | commit | crash-before | crash-after
+	Kind string // "" (count only) | write | commit | crash-before | crash-after | crash-write
 	At   int    // 1-based index of the write / commit to hit
 }
 
@@ -57,6 +57,14 @@ func (f *FaultDB) write(what string) error {
 	if f.plan.Kind == "write" && f.Writes == f.plan.At {
 		f.Fired = true
 		return ErrInjected
+	}
+	if f.plan.Kind == "crash-write" && f.Writes == f.plan.At {
+		// the process dies inside the operation, before this write and before any commit: a panic unwinds through
+		// the wallet code (running its deferred functions, as a real panic would) and is caught by the harness
+		f.Fired = true
+		f.mu.Unlock()
+		defer f.mu.Lock()
+		panic(CrashSentinel{After: false})
 	}
 	return nil
 }
